@@ -20,6 +20,9 @@ impl<C> IntoMsg<C> for SubMsg<Empty> {
             ))?,
             #[cfg(feature = "stargate")]
             CosmosMsg::Ibc(ibc) => CosmosMsg::Ibc(ibc),
+            #[cfg(feature = "stargate")]
+            #[allow(deprecated)]
+            CosmosMsg::Stargate { type_url, value } => CosmosMsg::Stargate { type_url, value },
             #[cfg(feature = "cosmwasm_2_0")]
             CosmosMsg::Any(any) => CosmosMsg::Any(any),
             #[cfg(feature = "stargate")]
